@@ -91,7 +91,8 @@ SPEC = {
         "'unregister only after the unlock has succeeded': Unlock/RUnlock look the mutexes up (validation with multiplicity, registry "
         "untouched, d.Mutex released before the panic), unlock them, and unregister in a second critical section",
         "regenerated normalised statements of 36 anchored functions pinned by C17_stmts_* (Hive/Props/SyncMutexCode.lean)",
-        "liveness is stated as invariants (every eligible waiter has a pending notifier) and absence of deadlock, not as fairness-based eventuality",
+        "liveness is stated as invariants (every eligible waiter has a pending notifier) and absence of deadlock, not as fairness-based eventuality; "
+        "a transient condition can be missed by a Counter/Stack wait (woken, it re-checks after the value moved back) - admitted by the model",
     ],
     "manifest": {
         "text": "Theorems over all reachable configurations of protocol models with any number of goroutines and any scripts: "
@@ -108,9 +109,14 @@ SPEC = {
                 "Data layer: stack FIFO/conservation, notification chain, return values (C17_stack_fifo_conservation, "
                 "C17_counter_notifications_chain, C17_counter_stack_return_values) over a refinement of the wait monitor "
                 "(C17_waitv_refines_wait), observed per arrival. After a recovered misuse panic the state is observed and probed "
-                "(C17_panic_freezes_lock_state; C17_dag_misuse_panic_preserves_state: a misused DAGMutex.Unlock/RUnlock panics with "
-                "the registry and every entity's lock state untouched, for a wrong mode at the k-th id of RUnlock with the k-1 read locks "
-                "before it released and all registrations in place - the former known finding, repaired in /repo).",
+                "(C17_panic_freezes_lock_state; C17_dag_misuse_panic_preserves_state / C17_dag_misuse_call_preserves_state: a misused "
+                "DAGMutex.Unlock/RUnlock panics with the registry and every entity's lock state untouched, for a wrong mode at the k-th id "
+                "of RUnlock with the k-1 read locks before it released and all registrations in place - the former known finding, repaired "
+                "in /repo fdd3faa; C17_dag_composed_objects_any_scripts: under arbitrary scripts every mutex object keeps the monitor "
+                "invariants; C17_dag_composed_no_leak). Round 6 ties: holder bookkeeping with frozen entities and lock states after every "
+                "recovered panic, misusers concurrent with correct users in the DAG stress, hand-off unlocks, corner thresholds "
+                "MaxInt/MinInt on every Wait*, calls queued on the Counter's value lock behind a subscriber callback (stale reads before "
+                "the lock become visible).",
         "note": "Trusted: Lean kernel; the hand-written models and Go's sync semantics as modelled; the executable DAG oracle of the tie is the abstract-lock model (the composed model is used for the theorems); liveness as invariants + deadlock freedom, no fairness.",
         "technique": "Lean 4 inductive invariants over interleaving protocol models (counting invariants, obligation-holder invariants) "
                      "+ conformance of recorded arrival-order observations and stress traces + regenerated skeleton obligations",
